@@ -65,6 +65,7 @@ type dialResult struct {
 	err   error
 	panic string // non-empty: Dial panicked
 	stack string
+	sent  int // connect(): bytes the client had put on the wire when the attempt failed
 }
 
 func (d dialResult) failed() bool { return d.err != nil || d.panic != "" }
@@ -625,6 +626,8 @@ func connect(c *mon.Case, sc *srvCtx, cf base.ClientFactory, pw string, addr *ne
 		if res.conn != nil {
 			res.conn.Close()
 		}
+		_, _, sent := cw.Out().Snapshot()
+		res.sent = len(sent)
 		cw.Close()
 		sw.Close()
 		return nil, res, err
@@ -635,6 +638,8 @@ func connect(c *mon.Case, sc *srvCtx, cf base.ClientFactory, pw string, addr *ne
 	}
 	res := <-ch
 	if res.failed() {
+		_, _, sent := cw.Out().Snapshot()
+		res.sent = len(sent)
 		cw.Close()
 		sw.Close()
 		return nil, res, nil
@@ -1186,6 +1191,11 @@ func runTamperedResponse(c *mon.Case, r *mon.Run, sc *srvCtx, cf base.ClientFact
 const histOps = "CIR68XFfS"
 const histOpsCore = "CIR68X"
 
+// B: from here on the ticket store cannot be checkpointed (the place of its
+// temporary file is taken by a directory: every write-back fails the way it
+// does on a full or read-only disk, the process goes on); U: it can again
+const histOpsStore = "CIRBU"
+
 func histString(ops string, idx, length int) string {
 	b := make([]byte, length)
 	for i := length - 1; i >= 0; i-- {
@@ -1230,6 +1240,7 @@ func runHistory(c *mon.Case, r *mon.Run, base string, hist string, seed uint64) 
 		}
 	}()
 	var mem, file *modelTicket
+	blocked := false
 	lost := "" // why the client holds no ticket although it was given one
 	restarts := 0
 	presentedIn := map[int]int{} // ticket id -> factory generation of its first presentation
@@ -1256,7 +1267,10 @@ func runHistory(c *mon.Case, r *mon.Run, base string, hist string, seed uint64) 
 				ctx = lost
 			}
 			if mem != nil {
-				mem, file = nil, nil // the store is rewritten when a ticket is taken out
+				mem = nil // the store is rewritten when a ticket is taken out ...
+				if !blocked {
+					file = nil // ... if it can be
+				}
 				lost = "used-ticket"
 			}
 			n0 := len(sc.srv.Log())
@@ -1266,6 +1280,13 @@ func runHistory(c *mon.Case, r *mon.Run, base string, hist string, seed uint64) 
 			typ := "none"
 			if len(lg) == 1 {
 				typ = lg[0].Type
+			}
+			if blocked && (herr != nil || res.failed()) && res.panic == "" && res.sent == 0 && (len(lg) == 0 || len(lg) == 1 && lg[0].Type == "invalid" && lg[0].HelloLen == 0) {
+				// nothing at all went out: the client declined to connect while it
+				// cannot record what it would have used
+				seen = append(seen, "refused-locally")
+				r.Count("history_connects_refused_while_the_store_cannot_be_written", 1)
+				continue
 			}
 			seen = append(seen, typ)
 			if len(lg) == 1 && lg[0].TicketID >= 0 {
@@ -1408,7 +1429,9 @@ func runHistory(c *mon.Case, r *mon.Run, base string, hist string, seed uint64) 
 			open.sw.Write(open.sess.Enc.Packet(ss.FlagNewTicket, body, rng.IntN(10)))
 			synctest.Wait()
 			mem = &modelTicket{id: rec.ID, issued: time.Now()}
-			file = &modelTicket{id: rec.ID, issued: time.Now()}
+			if !blocked {
+				file = &modelTicket{id: rec.ID, issued: time.Now()}
+			}
 			lost = ""
 			r.Count("history_tickets_issued", 1)
 		case 'R':
@@ -1436,6 +1459,16 @@ func runHistory(c *mon.Case, r *mon.Run, base string, hist string, seed uint64) 
 				}
 				mem = nil
 			}
+		case 'B':
+			if err := os.Mkdir(filepath.Join(dir, ticketFile+".tmp"), 0o700); err != nil && !os.IsExist(err) {
+				c.Violation("harness/block-store", err.Error(), nil)
+				return
+			}
+			blocked = true
+			r.Count("history_store_made_unwritable", 1)
+		case 'U':
+			os.Remove(filepath.Join(dir, ticketFile+".tmp"))
+			blocked = false
 		case '6':
 			time.Sleep(6 * 24 * time.Hour)
 		case '8':
@@ -1473,7 +1506,7 @@ func runHistory(c *mon.Case, r *mon.Run, base string, hist string, seed uint64) 
 		r.Distinct("type_sequences", strings.Join(seen, ","))
 	}
 	if connects >= 2 {
-		r.Sample(map[string]any{"part": "history", "history": hist, "ops": "C connect, I server issues ticket, R restart factory from the same state dir, 6/8 advance virtual clock by 6/8 days, X corrupt the ticket file entry, F/f connection attempt whose first write fails after/before byte 112, S attempt the server never answers", "handshakes_seen_by_server": seen})
+		r.Sample(map[string]any{"part": "history", "history": hist, "ops": "B/U the ticket store becomes unwritable/writable, C connect, I server issues ticket, R restart factory from the same state dir, 6/8 advance virtual clock by 6/8 days, X corrupt the ticket file entry, F/f connection attempt whose first write fails after/before byte 112, S attempt the server never answers", "handshakes_seen_by_server": seen})
 	}
 }
 
@@ -1951,6 +1984,20 @@ func TestCheck(t *testing.T) {
 			for idx := 0; idx < pow(len(histOpsCore), length); idx++ {
 				hists = append(hists, histString(histOpsCore, idx, length))
 			}
+		}
+	}
+	// the ticket store cannot be written for a while: a ticket issued, then
+	// every history of four (thorough: five) operations over connect / issue /
+	// restart / store unwritable / store writable again, and the same behind
+	// a restart
+	for idx := 0; idx < pow(len(histOpsStore), r.Pick(4, 5)); idx++ {
+		h := histString(histOpsStore, idx, r.Pick(4, 5))
+		if !strings.Contains(h, "B") || !strings.Contains(h, "C") {
+			continue
+		}
+		hists = append(hists, "CI"+h)
+		if r.Thorough() || idx%3 == 0 {
+			hists = append(hists, "CIR"+h+"C")
 		}
 	}
 	// a few longer ones that exercise use -> reissue -> restart chains
